@@ -1,0 +1,14 @@
+//go:build verif
+
+package meta
+
+import (
+	"github.com/projecteru2/core/types"
+
+	clientv3 "go.etcd.io/etcd/client/v3"
+)
+
+// NewETCDWithClient builds an ETCD over an already constructed client (simulation seam).
+func NewETCDWithClient(cli *clientv3.Client, config types.EtcdConfig) *ETCD {
+	return &ETCD{cliv3: cli, config: config}
+}
